@@ -383,10 +383,10 @@ func (u *Upgrader) Upgrade(w http.ResponseWriter, r *http.Request, responseHeade
 				vt.ResetRawInput()
 				wsc = NewServerConn(u, vt, subprotocol, compress, false)
 				wsc.Engine = engine
+				// always through the connection's job queue: the engine queues
+				// its close handling there, a handler run directly by the reader
+				// would overlap with it.
 				wsc.Execute = nbc.Execute
-				if engine.EpollMod == nbio.EPOLLET && engine.EPOLLONESHOT == nbio.EPOLLONESHOT {
-					wsc.Execute = nbhttp.SyncExecutor
-				}
 				if nbhttpConn != nil {
 					nbhttpConn.Parser = nil
 				}
@@ -477,10 +477,10 @@ func (u *Upgrader) Upgrade(w http.ResponseWriter, r *http.Request, responseHeade
 
 			wsc = NewServerConn(u, nbc, subprotocol, compress, false)
 			wsc.Engine = engine
+			// always through the connection's job queue: the engine queues
+			// its close handling there, a handler run directly by the reader
+			// would overlap with it.
 			wsc.Execute = nbc.Execute
-			if engine.EpollMod == nbio.EPOLLET && engine.EPOLLONESHOT == nbio.EPOLLONESHOT {
-				wsc.Execute = nbhttp.SyncExecutor
-			}
 			if nbhttpConn != nil {
 				nbhttpConn.Parser = nil
 			}
